@@ -472,7 +472,28 @@ func ruleMergeOrder(c *Ctx, r *Repo, cp *packages.Package) {
 			c.Fail("R08.4", s.fn+"|missing", "config/config.go", s.fn+" not found")
 			continue
 		}
-		rs := rangeOverC(cp, fd, "RECV."+s.loopMarker)
+		// the loop over the collection that merges (there may be an earlier one that only fills in nil entries)
+		var rs *ast.RangeStmt
+		{
+			fc := newFuncCanon(info, fd)
+			ast.Inspect(fd.Body, func(n ast.Node) bool {
+				x, ok := n.(*ast.RangeStmt)
+				if !ok || fc.E(x.X) != "RECV."+s.loopMarker {
+					return true
+				}
+				merges := false
+				ast.Inspect(x.Body, func(m ast.Node) bool {
+					if call, ok := m.(*ast.CallExpr); ok && strings.HasSuffix(calleeName(info, call), "/config.mergeConfigs") {
+						merges = true
+					}
+					return true
+				})
+				if rs == nil || merges {
+					rs = x
+				}
+				return true
+			})
+		}
 		if rs == nil {
 			c.Fail("R08.4", s.fn+"|loop", r.Pos(fd.Pos()), "no loop over "+s.loopMarker)
 			continue
@@ -642,26 +663,40 @@ func ruleConsumers(c *Ctx, r *Repo, rule string, only map[string]bool) {
 		return
 	}
 	found := false
-	ast.Inspect(run.Body, func(n ast.Node) bool {
-		ifs, ok := n.(*ast.IfStmt)
-		if !ok {
-			return true
+	levelOf := func(s string) string {
+		switch {
+		case strings.Contains(s, "GetPackageConfig<(config.RootConfig).GetPackageConfig>("):
+			return "package"
+		case strings.Contains(s, "rangeval(") && strings.Contains(s, "InterfaceCollection") || strings.HasPrefix(strings.TrimPrefix(s, "*"), "COLL."):
+			return "file"
+		case strings.Contains(s, "RECV.Config."):
+			return "root"
 		}
-		s := types.ExprString(ifs.Cond)
-		if strings.Contains(s, "ForceFileWrite") {
-			found = true
-			var operand ast.Expr
-			ast.Inspect(ifs.Cond, func(m ast.Node) bool {
-				if se, ok := m.(*ast.SelectorExpr); ok && se.Sel.Name == "ForceFileWrite" {
-					operand = se
+		return "other(" + s + ")"
+	}
+	// the guard is a condition on the paths of the per-file loop (possibly inside a private helper)
+	if rs := rangeOverC(cmdp, run, "map[string]*internal/cmd.InterfaceCollection"); rs != nil {
+		d := newDT(info)
+		d.callInline = pkgUnexported(cmdp)
+		start := d.envBefore(seedEnv(d, run), run.Body.List, rs)
+		if v, ok := rs.Value.(*ast.Ident); ok {
+			start.env[info.Defs[v]] = "COLL"
+		}
+		d.paths = nil
+		d.stmts(start, rs.Body.List, func(p *dtPath) { d.finish(p, "end") })
+		seenLv := map[string]token.Pos{}
+		for _, p := range d.paths {
+			for _, a := range p.Atoms {
+				if strings.HasSuffix(a.Expr, ".ForceFileWrite") {
+					seenLv[levelOf(a.Expr)] = a.Pos
 				}
-				return true
-			})
-			lv := level(operand)
-			c.Check(lv == "file", rule, "Run|consumer-level|force-file-write|"+lv, r.Pos(ifs.Pos()), "force-file-write read from the configuration of the mocks in the file", fmt.Sprintf("force-file-write in the overwrite guard is read at the %s level (%s)", lv, types.ExprString(operand)))
+			}
 		}
-		return true
-	})
+		for lv, pos := range seenLv {
+			found = true
+			c.Check(lv == "file", rule, "Run|consumer-level|force-file-write|"+lv, r.Pos(pos), "force-file-write read from the configuration of the mocks in the file", fmt.Sprintf("force-file-write in the overwrite guard is read at the %s level", lv))
+		}
+	}
 	if !found {
 		c.Fail(rule, "Run|overwrite-guard", r.Pos(run.Pos()), "no overwrite guard consulting force-file-write found")
 	}
